@@ -360,6 +360,9 @@ def main(argv=None):
     return report(mod, modname, pid, tier, seed, cases, results, findings, timeout, capped, t_start)
 
 
+_DEATHS = []
+
+
 def _worker_main(conn, modname, timeout):
     try:
         _winit(modname, timeout)
@@ -413,6 +416,8 @@ def _run_parallel(modname, timeout, cases, jobs):
             if why == "hard_timeout":
                 results[idx] = {"idx": idx, "fails": [], "aborted": "timeout", "nontrivial": False, "wall": time.time() - w["since"]}
             elif deaths[idx] <= 1:
+                _DEATHS.append({"case_index": idx, "exitcode": w["proc"].exitcode})
+                _out(f"NOTE worker process died (exit code {w['proc'].exitcode}) while executing case #{idx}; case retried in a fresh worker")
                 pending.appendleft(task)
             else:
                 results[idx] = {"idx": idx, "fails": [], "nontrivial": False, "wall": 0.0,
@@ -598,7 +603,7 @@ def report(mod, modname, pid, tier, seed, cases, results, findings, timeout, cap
         "excluded": excluded,
         "distinct_outcomes": len(outcomes),
         "outcome_histogram": dict(sorted(outcomes.items(), key=lambda kv: -kv[1])[:40]),
-        "stats": stats,
+        "stats": dict(stats, worker_deaths_retried=len(_DEATHS)) if _DEATHS else stats,
         "known_findings_hit": {k: v[1] for k, v in known_hits.items()},
     }
     if states or transitions:
